@@ -144,6 +144,8 @@ def generate(rng, tier):
         scn["prior"] = [[rng.randrange(2**31), rng.randint(0, 40), rng.randint(0, 3)], [rng.randrange(2**31), rng.randint(0, 40), rng.randint(0, 3)]]
         scn["between"] = rng.choice(["none", "draws", "failed-run"])
         scn["sched"]["policy"] = rng.choice(["fifo", "lifo", "random", "random", "preempt"])
+        # the repetition runs under another schedule: thread timing is not part of "the same configuration"
+        scn["sched2"] = dict(scn["sched"], policy=rng.choice(["fifo", "lifo", "random", "preempt"]), sim_seed=rng.randrange(2**31), workers=rng.choice([1, 2, 4, 8]))
         return scn
     kind = rng.choice(["model", "model", "pipeline", "pipeline", "pipeline", "own-seeds", "failing", "noseed-model"])
     scn = {"kind": kind, "prior": [[rng.randrange(2**31), rng.randint(0, 40), rng.randint(0, 3)], [rng.randrange(2**31), rng.randint(0, 40), rng.randint(0, 3)]], "between": rng.choice(["none", "draws", "failed-run", "other-run"])}
@@ -219,6 +221,9 @@ def generate(rng, tier):
             "parameters": [{"key": "pipeline.photon_collection.src.arguments.level", "values": rng.sample([2, 3, 5, 8], rng.randint(2, 3)), "enabled": True}],
         }
         scn["sched"] = obs.gen_sched(rng)
+        if path == "obs-par":
+            scn["sched2"] = obs.gen_sched(rng)
+            scn["sched2"]["procs"] = scn["sched"].get("procs", False)
     if kind == "failing":
         # raise inside the seeded section, after some draws happened
         tgt = rng.choice(["src", "meas"])
@@ -419,12 +424,12 @@ def _execute_reps(scn, forced, kind, digests, excs, infos, restored, viol):
             elif kind == "calibration":
                 from .. import calib
 
-                rec = calib.run_calibration(scn, forced=forced if rep == 0 else None, reset=False)
+                rec = calib.run_calibration(scn if rep == 0 or not scn.get("sched2") else dict(scn, sched=scn["sched2"]), forced=forced if rep == 0 else None, reset=False)
                 d, e = calib.result_digest(rec["tree"]), rec["exc"]
                 info = dict(rec.get("sim") or {})
                 info["overlap"] = (rec.get("rng") or {}).get("overlap", 0)
             else:
-                d, e, info = _run_world(scn, forced=forced if rep == 0 else None)
+                d, e, info = _run_world(scn if rep == 0 or not scn.get("sched2") else dict(scn, sched=scn["sched2"]), forced=forced if rep == 0 else None)
         except sched.HarnessError:
             raise
         except Exception:
